@@ -61,6 +61,46 @@ def check_module(api: str, version: int, etype: str, modname: str):
                 out.append((f"module-classvar-differs:{attr}", f"{modname}:{c.__name__}.{attr}={a!r} vs {b!r}"))
         if c is not top and c.__type__.name != "nested":
             out.append(("nested-type", f"{modname}:{c.__name__}"))
+    # every class REACHABLE from the top-level class through field types must be one of this module's own classes (an
+    # imported class escapes the loop above) and carry the module's class variables
+    seen: set = set()
+
+    def reach(cd):
+        for f in cd.fields:
+            if f.kind == "struct" and f.struct.cls not in seen:
+                seen.add(f.struct.cls)
+                yield f.struct.cls
+                yield from reach(f.struct)
+
+    try:
+        reachable = list(reach(D.describe(top)))
+    except Exception as e:
+        out.append((f"class-not-describable:{type(e).__name__}", f"{modname}: {e!r}"))
+        reachable = []
+    for c in reachable:
+        if c.__module__ != modname:
+            out.append(("reachable-class-defined-elsewhere", f"{modname}: {top.__name__} reaches {c.__module__}.{c.__qualname__}, which is not defined in this module"))
+        for attr in ("__version__", "__flexible__", "__api_key__", "__header_schema__"):
+            a, b = getattr(c, attr, _MISSING), getattr(top, attr, _MISSING)
+            if a is not b and a != b:
+                out.append((f"reachable-classvar-differs:{attr}", f"{modname}: {c.__module__}.{c.__name__}.{attr}={a!r} but {top.__name__} has {b!r}"))
+    # the version PACKAGE (kio.schema.<api>.v<N>) must hand out this module's classes, not a neighbouring version's
+    pkgname = modname.rsplit(".", 1)[0]
+    try:
+        import importlib
+
+        pkg = importlib.import_module(pkgname)
+        for name, obj in vars(pkg).items():
+            if isinstance(obj, type) and getattr(obj, "__module__", "").startswith("kio.schema.") and not obj.__module__.startswith(pkgname + "."):
+                out.append(("package-exports-foreign-class", f"{pkgname}.{name} is {obj.__module__}.{obj.__qualname__}"))
+            if isinstance(obj, type) and obj.__module__ == modname and getattr(pkg, obj.__name__, None) is not obj:
+                out.append(("package-export-shadowed", f"{pkgname}.{obj.__name__}"))
+        exported = getattr(pkg, top.__name__, _MISSING)
+        if exported is not _MISSING and exported is not top:
+            out.append(("package-exports-other-class", f"{pkgname}.{top.__name__} is {getattr(exported, '__module__', '?')}.{getattr(exported, '__qualname__', '?')}, "
+                        f"not the class defined in {modname}"))
+    except Exception as e:
+        out.append((f"package-not-importable:{type(e).__name__}", f"{pkgname}: {e!r}"))
     return out, top
 
 
